@@ -433,6 +433,7 @@ def write_gen_workspace(U, cases, gdir, shards=GEN_SHARDS):
                 f.write(src)
     with open(os.path.join(gdir, "Cargo.toml"), "w") as f:
         f.write('[workspace]\nresolver = "2"\nmembers = [%s]\n\n[profile.dev]\nopt-level = 0\ndebug = false\nincremental = false\n\n'
+                '[profile.nodebug]\ninherits = "dev"\ndebug-assertions = false\noverflow-checks = false\n\n'
                 '[patch.crates-io]\nepserde-derive = { path = "%s/epserde-derive" }\n' % (", ".join('"%s"' % m for m in members), REPO))
     os.makedirs(os.path.join(gdir, ".cargo"), exist_ok=True)
     with open(os.path.join(gdir, ".cargo", "config.toml"), "w") as f:
@@ -455,24 +456,29 @@ def shards_of_cases(cases, n):
     return [p for p in parts if p]
 
 
-def build_gen(gdir, tdir):
+def build_gen(gdir, tdir, profile=None):
     env = dict(ENV)
     env["CARGO_TARGET_DIR"] = tdir
     # the uplifted binaries are re-linked on every build: a binary of the same name left by another
     # workspace would otherwise be taken for this one's (cargo only checks its own fingerprints)
     import glob
-    for f in glob.glob(os.path.join(tdir, "debug", "gen_s*")) + glob.glob(os.path.join(tdir, "debug", "evc_s*")):
+    bdir = profile or "debug"
+    for f in glob.glob(os.path.join(tdir, bdir, "gen_s*")) + glob.glob(os.path.join(tdir, bdir, "evc_s*")):
         if os.path.isfile(f):
             os.remove(f)
-    rc, out, err = run(["cargo", "build", "--offline", "--quiet", "--workspace"], cwd=gdir, timeout=3000, env=env)
+    rc, out, err = run(["cargo", "build", "--offline", "--quiet", "--workspace"] + (["--profile", profile] if profile else []), cwd=gdir, timeout=3000, env=env)
     return rc == 0, out + err
 
 
-def run_impl(parts, ops_of, gdir, tdir, tag, binprefix="evc_s"):
+def run_impl(parts, ops_of, gdir, tdir, tag, binprefix="evc_s", bindir="debug"):
     """ops_of: cid -> list of op strings. Returns (obs dict, base address per case, errors).
     A shard that aborts (e.g. allocation failure) is resumed after the case that killed it; that
     case gets the observation (cid, 'crash')."""
     obs, errs, bases = {}, [], {}
+    for part in parts:
+        for c in part:
+            if getattr(c, "_resume_ops", None):
+                c._resume_ops = None
     pending = {k: [c for c in part if ops_of(c)] for k, part in enumerate(parts)}
     for attempt in range(40):
         todo = {k: cs for k, cs in pending.items() if cs}
@@ -482,7 +488,7 @@ def run_impl(parts, ops_of, gdir, tdir, tag, binprefix="evc_s"):
         for k, cs in todo.items():
             p = os.path.join(gdir, "%s_ops_%d.txt" % (tag, k))
             write_lines(p, ["%s %s" % (c.cid, " ".join(getattr(c, "_resume_ops", None) or ops_of(c))) for c in cs])
-            cmds.append([os.path.join(tdir, "debug", "%s%d" % (binprefix, k)), p])
+            cmds.append([os.path.join(tdir, bindir, "%s%d" % (binprefix, k)), p])
             keys.append(k)
         res = run_parallel(cmds, timeout=3000)
         for k, (rc, out, err) in zip(keys, res):
@@ -821,6 +827,16 @@ def run_campaign(tier):
     c.iobs, c.bases, errs = run_impl(parts, iops, gdir, tdir, "run")
     c.timing["impl_run"] = round(time.time() - t1, 1)
     c.errors += errs
+    # the same cases on a build without debug assertions and overflow checks
+    t1 = time.time()
+    ok2, log2 = build_gen(gdir, tdir, profile="nodebug")
+    if ok2:
+        c.iobs2, _b2, errs2 = run_impl(parts, iops, gdir, tdir, "run2", bindir="nodebug")
+        c.errors += errs2
+    else:
+        c.iobs2 = {}
+        c.errors.append("generated harness does not compile without debug assertions:\n" + log2[-3000:])
+    c.timing["nodebug_build_and_run"] = round(time.time() - t1, 1)
     c.hdrs = {}
     for x in c.cases:
         # header inputs (hash words, type-name string) are read from the bytes the implementation wrote
